@@ -27,10 +27,30 @@ theorem lastMin_prints (f : Nat → Bytes) : printJsonPath f lastMinAst = lastMi
     PathPrint.printArrayIndexList, PathPrint.printArrayIndex, PathPrint.printIndex,
     PathPrint.intBytes, PathPrint.decBytes]
 
-/-- F1c: … and the parser REJECTS that text (`2147483648` overflows nom's `i32`, the `last - n`
-alternative fails, `last` alone is followed by `-`): `Display` is not a right inverse of the
-parser on `LastIndex(i32::MIN)`. -/
-theorem lastMin_not_roundtrip : parseJsonPath lastMinPrinted = .err "InvalidJsonPath" := by rfl
+/-- F1c (REPAIRED in the crate, commit "`last - n` accepts the offset that LastIndex(i32::MIN)
+prints as"): the printout parses back to the same AST.  Before the fix the offset after
+`last -` was read with nom's `i32`, `2147483648` overflowed, and the text was rejected. -/
+theorem lastMin_roundtrip : parseJsonPath lastMinPrinted = .ok lastMinAst := by rfl
+
+/-- the `i64` offset saturates into the `i32` range: `$[last-2147483649]` and
+`$[last-9223372036854775807]` are `LastIndex(i32::MIN)` too -/
+theorem lastMinus_big_saturates :
+    parseJsonPath [36, 91, 108, 97, 115, 116, 45, 50, 49, 52, 55, 52, 56, 51, 54, 52, 57, 93]
+      = .ok lastMinAst ∧
+    parseJsonPath [36, 91, 108, 97, 115, 116, 45, 57, 50, 50, 51, 51, 55, 50, 48, 51, 54, 56, 53,
+      52, 55, 55, 53, 56, 48, 55, 93] = .ok lastMinAst := ⟨by rfl, by rfl⟩
+
+/-- … but an offset that does not fit `i64` is still rejected: `$[last-9223372036854775808]` -/
+theorem lastMinus_i64_overflow_rejected :
+    parseJsonPath [36, 91, 108, 97, 115, 116, 45, 57, 50, 50, 51, 51, 55, 50, 48, 51, 54, 56, 53,
+      52, 55, 55, 53, 56, 48, 56, 93] = .err "InvalidJsonPath" := by rfl
+
+/-- `$[last - -9223372036854775808]`: `i64::MIN.saturating_neg()` = `i64::MAX`, clamped:
+`LastIndex(i32::MAX)` -/
+theorem lastMinus_i64_min :
+    parseJsonPath [36, 91, 108, 97, 115, 116, 32, 45, 32, 45, 57, 50, 50, 51, 51, 55, 50, 48, 51,
+      54, 56, 53, 52, 55, 55, 53, 56, 48, 56, 93]
+      = .ok [.root, .arrayIndices [.index (.last 2147483647)]] := by rfl
 
 /-- `1e` -/
 def oneE : Bytes := [49, 101]
@@ -43,14 +63,74 @@ theorem oneE_rejected : parseJsonPath oneE = .err "InvalidJsonPath" := by rfl
 
 theorem oneX_accepted : parseJsonPath [49, 120] = .ok [.dotField [49, 120]] := by rfl
 
-/-- F3: `last--2147483648` (last minus i32::MIN) saturates: `LastIndex(i32::MAX)`. -/
+/-- F3 (unchanged by the fix): `last--2147483648` (last minus i32::MIN) saturates:
+`LastIndex(i32::MAX)` — now through the `clamp`, before through `i32::saturating_neg`. -/
 theorem lastMinusMin_saturates :
     parseJsonPath [36, 91, 108, 97, 115, 116, 45, 45, 50, 49, 52, 55, 52, 56, 51, 54, 52, 56, 93]
       = .ok [.root, .arrayIndices [.index (.last 2147483647)]] := by rfl
+
+/-! ### after the fix "tabs, newlines and `&` end an unquoted name" -/
+
+/-- `$.a<TAB>.b`: the tab is no longer part of the name `a` -/
+theorem tab_ends_name :
+    parseJsonPath [36, 46, 97, 9, 46, 98] = .ok [.root, .dotField [97], .dotField [98]] := by rfl
+
+/-- `$?(@.a==1&&@.b==2)`: `&&` directly after a literal/name is the conjunction -/
+theorem amp_ends_name :
+    parseJsonPath [36, 63, 40, 64, 46, 97, 61, 61, 49, 38, 38, 64, 46, 98, 61, 61, 50, 41]
+      = .ok [.root, .filterExpr (.binaryOp .and
+          (.binaryOp .eq (.paths [.current, .dotField [97]]) (.value (.num (.uint 1))))
+          (.binaryOp .eq (.paths [.current, .dotField [98]]) (.value (.num (.uint 2)))))] := by rfl
+
+/-- `$.a&b` and `{a&b}` are rejected (a lone `&` is not a token); `{a<TAB>,b}` is `{a,b}` -/
+theorem amp_in_name_rejected :
+    parseJsonPath [36, 46, 97, 38, 98] = .err "InvalidJsonPath" ∧
+    parseKeyPaths [123, 97, 38, 98, 125] = .err "InvalidKeyPath" ∧
+    parseKeyPaths [123, 97, 9, 44, 98, 125] = .ok [.name [97], .name [98]] := ⟨by rfl, by rfl, by rfl⟩
+
+/-! ### after the fix "a negative number literal can be the left operand of a comparison"
+(`expr_atom`: the comparison alternative is tried before the unary sign) -/
+
+/-- `-1<=$` is the predicate `-1 <= $` (canonical: `(pred (bin le (val I-1) (paths (root))))`);
+before the reorder the unary alternative took `-` `1` and the leftover `<=$` was an error -/
+theorem neg_literal_left_of_comparison :
+    parseJsonPath [45, 49, 60, 61, 36]
+      = .ok [.predicate (.binaryOp .le (.value (.num (.int (-1)))) (.paths [.root]))] := by rfl
+
+/-- `$?(-1 < @.a)` -/
+theorem neg_literal_in_filter :
+    parseJsonPath [36, 63, 40, 45, 49, 32, 60, 32, 64, 46, 97, 41]
+      = .ok [.root, .filterExpr (.binaryOp .lt (.value (.num (.int (-1))))
+          (.paths [.current, .dotField [97]]))] := by rfl
+
+/-- `-$.a` still reaches the unary alternative -/
+theorem unary_minus_path :
+    parseJsonPath [45, 36, 46, 97]
+      = .ok [.predicate (.arithUnary .sub (.paths [.root, .dotField [97]]))] := by rfl
+
+/-- `-1` alone is still unary minus applied to `UInt64(1)` (not the literal `Int64(-1)`) -/
+theorem unary_minus_one :
+    parseJsonPath [45, 49] = .ok [.predicate (.arithUnary .sub (.value (.num (.uint 1))))] := by rfl
+
+/-- `-1 + 2` is still binary arithmetic on the literal `Int64(-1)` -/
+theorem neg_literal_arith :
+    parseJsonPath [45, 49, 32, 43, 32, 50]
+      = .ok [.predicate (.arithBinary .add (.value (.num (.int (-1)))) (.value (.num (.uint 2))))] := by
+  rfl
+
+/-- still rejected: a unary sign applied to a path cannot be a comparison operand
+(`-$.a == 1`), and a sign separated from its digits is not a literal (`- 1 < $`) -/
+theorem unary_operand_not_comparable :
+    parseJsonPath [45, 36, 46, 97, 32, 61, 61, 32, 49] = .err "InvalidJsonPath" ∧
+    parseJsonPath [45, 32, 49, 32, 60, 32, 36] = .err "InvalidJsonPath" := ⟨by rfl, by rfl⟩
+
+/-- the canonical line-protocol print of `-1<=$` -/
+example : (parseJsonPath [45, 49, 60, 61, 36]).toOption.map Canon.showJsonPath
+    = some "(pred (bin le (val I-1) (paths (root))))" := by decide
 
 end Jsonb.PathFindings
 
 #print axioms Jsonb.PathFindings.lastMin_parses
 #print axioms Jsonb.PathFindings.lastMin_prints
-#print axioms Jsonb.PathFindings.lastMin_not_roundtrip
+#print axioms Jsonb.PathFindings.lastMin_roundtrip
 #print axioms Jsonb.PathFindings.oneE_rejected
